@@ -8,6 +8,7 @@ import (
 	"regexp/syntax"
 	"strconv"
 	"strings"
+	"unicode/utf8"
 
 	"golang.org/x/tools/go/ssa"
 )
@@ -182,6 +183,13 @@ func (e *Engine) registerIntrinsics() {
 	e.intr["strings.Contains"] = intrStringsContains
 	e.intr["strings.HasPrefix"] = intrStringsHasPrefix
 	e.intr["strconv.Atoi"] = intrAtoi
+	e.intr["unicode/utf8.ValidString"] = func(e *Engine, c *CallCtx) []Outcome {
+		a := c.Args[0].(VString)
+		if as, ok := a.Concrete(); ok {
+			return one(c.St, BoolC(utf8.ValidString(as)))
+		}
+		return one(c.St, utf8Valid(a))
+	}
 	e.intr["strings.EqualFold"] = func(e *Engine, c *CallCtx) []Outcome {
 		a, b := c.Args[0].(VString), c.Args[1].(VString)
 		if as, ok := a.Concrete(); ok {
@@ -603,6 +611,41 @@ func intrStringsSplit(e *Engine, c *CallCtx) []Outcome {
 		es[i] = ConstString(p)
 	}
 	return one(c.St, e.newSlice(c.St, types.Typ[types.String], es, len(es), c.Site))
+}
+
+// utf8Valid: RFC 3629 well-formedness of a bounded byte string as a term (exact): a DFA whose
+// state after each byte is tracked symbolically (0 = at a character boundary).
+func utf8Valid(s VString) *Term {
+	in := func(b *Term, lo, hi uint64) *Term {
+		return And(CmpBV(OULe, BVC(lo, 8), b), CmpBV(OULe, b, BVC(hi, 8)))
+	}
+	// states: 0 boundary; 1,2,3 = that many plain continuation bytes still expected;
+	// 4 = after E0 (next A0..BF, then 1 more); 5 = after ED (next 80..9F, then 1 more);
+	// 6 = after F0 (next 90..BF, then 2 more); 7 = after F4 (next 80..8F, then 2 more); 8 = invalid
+	st := BVC(0, 4)
+	K := func(n uint64) *Term { return BVC(n, 4) }
+	for i, b := range s.B {
+		active := CmpBV(OSLt, I64(int64(i)), s.Len)
+		cont := in(b, 0x80, 0xbf)
+		next0 := Ite(in(b, 0x00, 0x7f), K(0),
+			Ite(in(b, 0xc2, 0xdf), K(1),
+				Ite(Eq(b, BVC(0xe0, 8)), K(4),
+					Ite(Or(in(b, 0xe1, 0xec), in(b, 0xee, 0xef)), K(2),
+						Ite(Eq(b, BVC(0xed, 8)), K(5),
+							Ite(Eq(b, BVC(0xf0, 8)), K(6),
+								Ite(in(b, 0xf1, 0xf3), K(3),
+									Ite(Eq(b, BVC(0xf4, 8)), K(7), K(8)))))))))
+		nxt := Ite(Eq(st, K(0)), next0,
+			Ite(Eq(st, K(1)), Ite(cont, K(0), K(8)),
+				Ite(Eq(st, K(2)), Ite(cont, K(1), K(8)),
+					Ite(Eq(st, K(3)), Ite(cont, K(2), K(8)),
+						Ite(Eq(st, K(4)), Ite(in(b, 0xa0, 0xbf), K(1), K(8)),
+							Ite(Eq(st, K(5)), Ite(in(b, 0x80, 0x9f), K(1), K(8)),
+								Ite(Eq(st, K(6)), Ite(in(b, 0x90, 0xbf), K(2), K(8)),
+									Ite(Eq(st, K(7)), Ite(in(b, 0x80, 0x8f), K(2), K(8)), K(8)))))))))
+		st = Ite(active, nxt, st)
+	}
+	return Eq(st, K(0))
 }
 
 // asciiMap lower-cases (upper=false) or upper-cases the ASCII letters of s, byte-wise.
